@@ -634,6 +634,26 @@ const c13procHoldXML = `<?xml version="1.0" encoding="UTF-8"?>
   </bpmn:process>
 </bpmn:definitions>`
 
+// the catch event sits in a loop: start -> M -> ev -> L -> M. Whenever the token has continued past the catch event the
+// harness answers L at once (`arrive`), so the SAME catch event is reached again and again while the timer goes on
+const c13procLoopXML = `<?xml version="1.0" encoding="UTF-8"?>
+<bpmn:definitions xmlns:bpmn="http://www.omg.org/spec/BPMN/20100524/MODEL" xmlns:xsi="http://www.w3.org/2001/XMLSchema-instance" id="defs" targetNamespace="http://bpmn.io/schema/bpmn">
+  <bpmn:process id="proc" isExecutable="true">
+    <bpmn:startEvent id="start"><bpmn:outgoing>f0</bpmn:outgoing></bpmn:startEvent>
+    <bpmn:sequenceFlow id="f0" sourceRef="start" targetRef="M" />
+    <bpmn:exclusiveGateway id="M"><bpmn:incoming>f0</bpmn:incoming><bpmn:incoming>f3</bpmn:incoming><bpmn:outgoing>f1</bpmn:outgoing></bpmn:exclusiveGateway>
+    <bpmn:sequenceFlow id="f1" sourceRef="M" targetRef="ev" />
+    <bpmn:intermediateCatchEvent id="ev">
+      <bpmn:incoming>f1</bpmn:incoming>
+      <bpmn:outgoing>f2</bpmn:outgoing>
+      <bpmn:timerEventDefinition id="td"><bpmn:%s xsi:type="bpmn:tFormalExpression">%s</bpmn:%s></bpmn:timerEventDefinition>
+    </bpmn:intermediateCatchEvent>
+    <bpmn:sequenceFlow id="f2" sourceRef="ev" targetRef="L" />
+    <bpmn:task id="L"><bpmn:incoming>f2</bpmn:incoming><bpmn:outgoing>f3</bpmn:outgoing></bpmn:task>
+    <bpmn:sequenceFlow id="f3" sourceRef="L" targetRef="M" />
+  </bpmn:process>
+</bpmn:definitions>`
+
 const c13procXML = `<?xml version="1.0" encoding="UTF-8"?>
 <bpmn:definitions xmlns:bpmn="http://www.omg.org/spec/BPMN/20100524/MODEL" xmlns:xsi="http://www.w3.org/2001/XMLSchema-instance" id="defs" targetNamespace="http://bpmn.io/schema/bpmn">
   <bpmn:process id="proc" isExecutable="true">
@@ -689,7 +709,13 @@ func c13nodeID(n any) string {
 }
 
 func c13ecase(out *rec.Out, d c13def, ops []c13op, hold int, stats map[string]int) {
-	out.Begin("c13e", "sync", "engine", d.kind, d.reps, c13opt(d.start), d.interval, c13opt(d.end), 0)
+	loop := hold < 0
+	if loop {
+		hold = 0
+		out.Begin("c13e", "sync", "engineloop", d.kind, d.reps, c13opt(d.start), d.interval, c13opt(d.end), 0)
+	} else {
+		out.Begin("c13e", "sync", "engine", d.kind, d.reps, c13opt(d.start), d.interval, c13opt(d.end), 0)
+	}
 	defer out.End()
 	tag := map[string]string{"date": "timeDate", "duration": "timeDuration", "cycle": "timeCycle"}[d.kind]
 	var defs schema.Definitions
@@ -697,6 +723,10 @@ func c13ecase(out *rec.Out, d c13def, ops []c13op, hold int, stats map[string]in
 	if hold > 0 {
 		src = c13procHoldXML
 		stats["token_held_in_front_of_the_catch_event"]++
+	}
+	if loop {
+		src = c13procLoopXML
+		stats["catch_event_in_a_loop"]++
 	}
 	if err := xml.Unmarshal([]byte(fmt.Sprintf(src, tag, d.iso(), tag)), &defs); err != nil {
 		out.Line("error parse %s", strings.ReplaceAll(err.Error(), " ", "_"))
@@ -792,6 +822,14 @@ func c13ecase(out *rec.Out, d c13def, ops []c13op, hold int, stats map[string]in
 			clk.Add(time.Duration(o.arg) * time.Second)
 		}
 		emit(o.kind, o.arg)
+		if loop && held != nil {
+			// the token has continued and waits at L: send it round again
+			h := held
+			held = nil
+			h.Do()
+			emit("arrive", 0)
+			stats["catch_event_reached_again"]++
+		}
 	}
 	if hold > 0 && hold >= len(ops) && held != nil {
 		held.Do()
@@ -846,6 +884,9 @@ func c13ejobs(tier string) []c13ejob {
 			jobs = append(jobs, c13ejob{d, ops, 0})
 			for h := 1; h <= len(ops); h++ {
 				jobs = append(jobs, c13ejob{d, ops, h})
+			}
+			if len(ops) >= 2 {
+				jobs = append(jobs, c13ejob{d, ops, -1}) // the catch event in a loop
 			}
 			if len(seq) == maxLen {
 				return
